@@ -72,7 +72,7 @@ def haversine_distance_meters(coord1: Coordinate, coord2: Coordinate) -> float:
     var1 = (math.sin(d_lat / 2) ** 2) + math.cos(lat1) * math.cos(lat2) * (
         math.sin(d_long / 2) ** 2
     )
-    return EARTH_RADIUS * 2 * math.atan2(math.sqrt(var1), math.sqrt(1 - var1))
+    return EARTH_RADIUS * 2 * math.atan2(math.sqrt(var1), math.sqrt(max(0., 1 - var1)))
 
 
 def inverse_haversine_degrees(
